@@ -20,28 +20,33 @@ Arguments OOk {P}. Arguments ORaise {P}.
 
 Definition memZ (k : Z) (l : list Z) : bool := existsb (Z.eqb k) l.
 
-(* an `except` clause: the class codes it catches (subclasses included) and the class its handler raises instead *)
+(* one `except` handler: the class codes it catches (subclasses included) and the class its body raises instead *)
 Definition site : Type := (list Z * Z)%type.
 
-(* a try statement with one handler around a call that raised class k *)
+(* one handler around a call that raised class k *)
 Definition through (s : site) (k : Z) : Z := if memZ k (fst s) then snd s else k.
 
-(* [own] = class the serializer raises by itself for ABad; [sites] : the handler guarding each library call *)
-Definition handle {P} (own : Z) (sites : list site) (a : ans P) : ores P :=
+(* a `try` statement = its handlers in source order; the first one that matches runs *)
+Definition trysite : Type := list site.
+Definition through_try (hs : trysite) (k : Z) : Z :=
+  match List.find (fun s => memZ k (fst s)) hs with
+  | Some s => snd s
+  | None => k
+  end.
+
+(* [own] = class the serializer raises by itself for ABad; [sites] : the try statement guarding each library call *)
+Definition handle {P} (own : Z) (sites : list trysite) (a : ans P) : ores P :=
   match a with
   | AOk p => OOk p
   | ABad => ORaise own
-  | ARaise s k => match nth_error sites s with
-                  | Some st => ORaise (through st k)
-                  | None => ORaise k
-                  end
+  | ARaise s k => ORaise (through_try (nth s sites []) k)
   end.
 
 (* an outer try statement around a method call (FixedSize/AutoSeparated incremental_deserialize around self.deserialize) *)
-Definition rehandle {P} (s : site) (o : ores P) : ores P :=
+Definition rehandle {P} (s : trysite) (o : ores P) : ores P :=
   match o with
   | OOk p => OOk p
-  | ORaise k => ORaise (through s k)
+  | ORaise k => ORaise (through_try s k)
   end.
 
 (* a packet type that can also say: exception class k left the generator (neither return nor parse error) *)
